@@ -5,6 +5,7 @@ package rulelist
 // C15 (b) — a successful refresh stores a stable normal form.
 //
 //vx:overlay internal/filtering/rulelist/zz_vx_c15.go
+//vx:native
 //vx:entry vxC15NormalForm reach=accepted,rejected-html,rejected-binary,ascii-rule,ascii-empty,title,html-after-rule
 //vx:entry vxC15HighBytes reach=hb-accepted,hb-unicode-space-trimmed
 //vx:entry vxC15LongLines reach=ll-grown,ll-too-long
@@ -175,6 +176,12 @@ func vxC15NormalForm() {
 	var out bytes.Buffer
 	VxC15Log, VxC15Last = nil, 0
 	res, err := NewParser().Parse(&out, bytes.NewReader(in), make([]byte, DefaultRuleBufSize))
+	vx.Note(err != nil)
+	vx.Note(out.Bytes())
+	if res != nil {
+		vx.Note(res.RulesCount)
+		vx.Note(res.Checksum)
+	}
 	stored := out.Bytes()
 	summed := VxC15Log
 	vx.Assert(res.Checksum == VxC15Last, "the reported checksum is the one computed over the rule lines")
